@@ -86,6 +86,12 @@ func ZZ_C15_independent() {
 		_, perr := b.ECPrivKey()
 		vAssert("zeroed:no-private-key", perr != nil)
 		vAssert("zeroed:buffers", zzAllZero(bKey) && zzAllZero(bPub) && zzAllZero(bChain) && zzAllZero(bFP))
+		// a later network change does not bring a zeroed key back to life
+		b.SetNet(&chaincfg.TestNet3Params)
+		vAssert("zeroed:string-after-setnet", b.String() == "zeroed extended key")
+		_, perr = b.ECPrivKey()
+		vAssert("zeroed:no-private-key-after-setnet", perr != nil)
+		zzSameObs("zero-derived-then-setnet", a, oa)
 	case 1:
 		// zero the original: the derived key keeps its value
 		a.Zero()
